@@ -4,27 +4,26 @@ PROP = dict(
     title="Binary Merkle proofs are complete and sound",
     family="bmt", harness="bmt", run_vo="Run/Bmt.vo",
     theorems=["C10_path_recomputes_root", "C10_verify_iff", "C10_complete", "C10_sound",
+              "C10_prove_is_PATH", "C10_prove_is_PATH_any_state", "C10_sides_all",
               "C10_prove_is_PATH_given_sides", "C10_sides_checked", "C10_prove_is_PATH_partial"],
-    open_statements=[
-        "C10_prove_is_PATH_statement: tree_prove = (MTH, RFC PATH) for the storage-backed tree, all trees below 2^63 leaves — proved for trees of up to 128 leaves (C10_prove_is_PATH_partial) and, for all sizes, under the computable premise sides_ok(i, count) that position_path yields the in-order positions of the RFC sibling ranges (C10_prove_is_PATH_given_sides); the general proof of that premise (position_path / path_iterator arithmetic) is open; larger trees are exercised by correspondence + oracle",
-    ],
+    open_statements=[],
     translators=[],
     trusted_base=[SHA_NOTE,
                   "model of verify.rs / merkle_tree.rs prove / position_path.rs in Merkle/BinaryModel.v (hand-written, tied by correspondence)",
-                  "vm_compute inside the proof of C10_sides_checked (finite sweep over all (index, count) with count <= 128, bound stated in the theorem)"],
-    assumptions=["num_leaves < 2^64, i.e. every u64 count (C10_verify_iff, C10_complete, C10_sound); the shift overflow of verify.rs for num_leaves >= 2^63 found while proving C10_verify_iff was repaired by fix commit 8940979, model and code agree on the whole u64 range", "C10_prove_is_PATH_partial: at most 128 leaves; C10_prove_is_PATH_given_sides: fewer than 2^63 leaves, tree invariant tinv, sides_ok(i, count)", "C10_sound: injectivity of the node hash (collision-freeness) as an explicit premise; no hash assumption in the other theorems"],
+                  "vm_compute inside the proof of C10_sides_checked only (finite sweep, bound stated in that theorem; the full theorems do not depend on it)"],
+    assumptions=["num_leaves < 2^64, i.e. every u64 count (C10_verify_iff, C10_complete, C10_sound); the shift overflow of verify.rs for num_leaves >= 2^63 found while proving C10_verify_iff was repaired by fix commit 8940979, model and code agree on the whole u64 range", "C10_prove_is_PATH / C10_prove_is_PATH_any_state: fewer than 2^63 leaves (the limit enforced by MerkleTree::push); any_state: tree invariant tinv (established by every history of pushes/resets/reloads)", "C10_sound: injectivity of the node hash (collision-freeness) as an explicit premise; no hash assumption in the other theorems"],
     rule=("prove(i) for every (n, i<=n) with n <= 18 quick / 64 thorough plus sampled larger trees; verify on structured mutations of valid proofs "
           "(drop/append/swap/flip element, index±1, count±1, other counts, data/root changed, random index/count) and boundary tuples; "
           "each case: Rust result vs Gallina L1 model; oracle: Rust prove == RFC PATH written independently in the harness, Rust verify verdict == RFC recomputation; "
           "distinct = (kind,n,i,proof length,verdict); non-trivial = n >= 2"),
-    level_text=("Machine-checked proof (Coq) that the model of the verifier (path_length_from_key + the three-phase loop of verify.rs) accepts a tuple exactly when the "
-                "RFC 6962 recomputation from the same tuple reaches the root, for all proof sets, indices and every u64 leaf count; hence it accepts every RFC audit path "
-                "(completeness) and, with an injective node hash as explicit premise, an accepted tuple proves membership at that index (soundness). For the storage-backed tree, "
-                "prove returns the RFC tree hash and audit path in every state reachable by pushes/resets/reloads: proved for all trees of up to 128 leaves, and for all trees "
-                "below 2^63 leaves under a computable premise on the side positions yielded by position_path (checked exhaustively up to 128 leaves); larger trees are "
-                "covered on every run by the model/implementation correspondence and by an implementation-level oracle against an independent RFC recursion"),
-    level_note=("Proved: C10_verify_iff (all tuples, n < 2^64), C10_complete, C10_sound, spec-level C10_path_recomputes_root, C10_prove_is_PATH_partial (<= 128 leaves), C10_prove_is_PATH_given_sides. Open: C10_prove_is_PATH_statement in full generality (listed in evidence open_statements). "
-                "Trusted: Coq kernel, hand-written L1 model tied by differential testing, harness oracle, SHA-256 instance."),
-    technique="Coq proof (verifier = RFC recomputation, completeness, soundness; prove = RFC audit path, partial) + differential model/impl run + independent RFC 6962 oracle",
+    level_text=("Machine-checked proof (Coq), no size bound other than the u64 / 2^63 limits of the code: (1) the model of the verifier (path_length_from_key + the three-phase loop of "
+                "verify.rs) accepts a tuple exactly when the RFC 6962 recomputation from the same tuple reaches the root, for all proof sets, indices and every u64 leaf count; hence it "
+                "accepts every RFC audit path (completeness) and, with an injective node hash as explicit premise, an accepted tuple proves membership at that index (soundness); "
+                "(2) MerkleTree::prove of the storage-backed tree (position_path + scratch/storage lookups) returns the RFC tree hash and the RFC audit path for every index of every "
+                "tree below 2^63 leaves, in every state reachable by pushes/resets/reloads. The model is tied to the Rust code on every run by the model/implementation correspondence "
+                "and an implementation-level oracle against an independent RFC recursion"),
+    level_note=("Proved: C10_verify_iff (all tuples, n < 2^64), C10_complete, C10_sound, C10_prove_is_PATH (all trees < 2^63 leaves), C10_prove_is_PATH_any_state, C10_sides_all, spec-level "
+                "C10_path_recomputes_root; earlier partial results kept. Nothing open. Trusted: Coq kernel, hand-written L1 model tied by differential testing, harness oracle, SHA-256 instance."),
+    technique="Coq proof (verifier = RFC recomputation, completeness, soundness; prove = RFC audit path) + differential model/impl run + independent RFC 6962 oracle",
     design_ref="6/C10",
 )
